@@ -27,6 +27,13 @@ class P(EngProp):
         cases = []
         while len(cases) < n:
             recs, orc, sel, pipe, theme = themed_case(rng, g, tier)
+            if len(cases) % 6 == 5:
+                # one family in six over a base query that rewrites the line (unpack, line_format, decolorize): filters after it see the new line
+                want = ("unpack",) if rng.random() < 0.5 else ("unpack", "rewrite", "decolor")
+                for _ in range(120):
+                    if theme in want:
+                        break
+                    recs, orc, sel, pipe, theme = themed_case(rng, g, tier)
             if any(s["k"] == "distinct" for s in pipe) and rng.random() < 0.3:
                 pipe = [s for s in pipe if s["k"] != "distinct"]
             pipe = pipe[:3]
@@ -45,6 +52,8 @@ class P(EngProp):
                 r["ts"] = recs[0]["ts"] + i * 7 if i else r["ts"]
             labels = egen.QLABELS + ["level", "msg", "nosuch"]
             words = egen.WORDS
+            if theme == "unpack":
+                words = ["error", "info", "GET", "_entry", "app", "web", "inner", "{", "timeout", "p1", "level", '"']      # text of the packed line that is not in the entry
             # IPv6 addresses in lines and IPv6 patterns: outside the modelled fragment, the relations are demanded on the observed results
             v6 = theme in ("ip", "plain") and rng.random() < 0.5
             if v6:
@@ -92,6 +101,8 @@ class P(EngProp):
             fam = [pipe, pipe + [f], pipe + [nf], pipe + [f, gg], pipe + [gg, f], pipe + [f, f],
                    pipe + [lf(pa)], pipe + [lf(pb)], pipe + [lf(pand)], pipe + [lf(por)], pipe + [empty]]
             caps = rand_caps(rng) if rng.random() < 0.5 else ([], [])
+            if theme in ("unpack", "rewrite", "decolor") and rng.random() < 0.7:
+                caps = egen.CAPSETS[3]        # a storage that evaluates every line filter it is offered: none may be offered past a stage that rewrites the line
             evals = []
             for pp in fam:
                 pp = g.disambiguate(pp) if False else pp
